@@ -4,7 +4,6 @@ package main
 // hub, in-memory DB), built the way the node start-up code wires them.
 
 import (
-	"bytes"
 	"context"
 	"fmt"
 	"math/big"
@@ -34,6 +33,7 @@ import (
 	"github.com/aergoio/aergo/v2/types/message"
 	"github.com/btcsuite/btcd/btcec/v2"
 	"github.com/libp2p/go-libp2p/core/crypto"
+	"google.golang.org/protobuf/proto"
 
 	"verif/h/vf"
 )
@@ -288,7 +288,9 @@ func (nd *node) deliver(blk *types.Block) (error, bool, error) {
 		return nil, false, fmt.Errorf("unexpected response %T", res)
 	}
 	on := false
-	if mb, e := nd.cs.CDB().GetBlockByNo(blk.BlockNo()); e == nil && bytes.Equal(mb.BlockHash(), blk.BlockHash()) {
+	// on the main chain = the main-chain block of that height has exactly this header (comparing hashes
+	// is not enough: the block hash is not injective, see the two-field byte-shift cases)
+	if mb, e := nd.cs.CDB().GetBlockByNo(blk.BlockNo()); e == nil && proto.Equal(mb.Header, blk.Header) {
 		on = true
 	}
 	return rsp.Err, on, nil
